@@ -29,6 +29,7 @@ func runOne(t *testing.T, c *Case, work, sched *choice.Source, out *wproto.Out, 
 			out.Finding(id, f.Sig, "mismatch", f.Msg, c)
 		}
 	}
+	out.Trace(id, "", []any{st.TraceHash, st.Steps, st.Preempt, st.Pixels, st.Samples, st.EarlyStops}, []any{sigs, st.Workers, st.Desc})
 	out.End(id, sigs)
 	out.Count("evaluations", 1)
 	out.Count("sim_steps", int64(st.Steps))
